@@ -31,10 +31,15 @@ func Depacketize(c Codec, arrivals []Arrival) []Unit {
 	}
 	for ai, a := range arrivals {
 		p := a.Payload
-		if len(p) <= hdr {
+		if len(p) < hdr {
 			continue
 		}
 		t := NalType(c, p)
+		// a header-only NAL unit (end of sequence / end of bitstream) is a legal single NAL unit packet;
+		// an aggregation or fragmentation packet of that length carries nothing
+		if len(p) == hdr && ((c == H264 && t >= 24) || (c == H265 && t >= 48)) {
+			continue
+		}
 		switch {
 		case (c == H264 && t == 24) || (c == H265 && t == 48):
 			// a foreign packet arriving between fragments (reordering) does not damage the fragmented unit:
